@@ -8,6 +8,7 @@ package main
 // documents, whitespace handling, the behaviour of encoding/xml on values.
 
 import (
+	"go/constant"
 	"go/types"
 	"sort"
 	"strings"
@@ -280,6 +281,58 @@ func runQueryWire(c *Ctx, pr *PropertyRun, prop, pkg string) {
 	if p.Control {
 		sch.ExpectControl("bogus-attr")
 		sch.ExpectControl("is-not-define")
+	}
+
+	// ---- enumerations
+	en := NewRule(prop, prop+".enums", "the enumerated attribute values accepted by the decoders equal the RFC's lists and everything else is rejected; the encoders' constants are those values (E2)")
+	en.Exhaustive = true
+	pr.Rules = append(pr.Rules, en)
+	enumRule(c, en, pkg, "negateCondition", map[string]string{"yes": "true", "no": "false"})
+	if prop == "C09" {
+		enumRule(c, en, pkg, "filterTest", map[string]string{"anyof": "anyof", "allof": "allof"})
+		enumRule(c, en, pkg, "matchType", map[string]string{"equals": "equals", "contains": "contains", "starts-with": "starts-with", "ends-with": "ends-with"})
+		// the public constants are the wire values
+		for name, want := range map[string]string{"FilterAnyOf": "anyof", "FilterAllOf": "allof", "MatchEquals": "equals", "MatchContains": "contains", "MatchStartsWith": "starts-with", "MatchEndsWith": "ends-with"} {
+			en.Role("public-constant")
+			cst, _ := p.Mod[pkg].Types.Scope().Lookup(name).(*types.Const)
+			ok := cst != nil && cst.Val().Kind() == constant.String && constant.StringVal(cst.Val()) == want
+			en.Ob(ok)
+			if !ok {
+				pos := "-"
+				if cst != nil {
+					pos = p.Pos(cst.Pos())
+				}
+				en.Violation("constant|"+name, pos, "public constant carddav."+name+" is not the RFC 6352 wire value \""+want+"\": queries built with it are sent with an attribute value the RFC does not define", nil)
+			}
+		}
+	}
+	// negate-condition encoder: true -> "yes"
+	if mt := p.MustFunc(en, pkg, "(negateCondition).MarshalText"); mt != nil {
+		spec := DTXSpec{Name: "negateCondition.MarshalText", Entry: mt,
+			Args: func(in *Interp) []Val { return []Val{LazyBool{"nc"}} },
+			Observe: func(in *Interp, res Val, pan *panicOutcome) string {
+				if pan != nil {
+					return "panic"
+				}
+				t := res.(Tuple)
+				if k, ok := t.E[1].(Konst); !ok || k.V != nil {
+					return "error"
+				}
+				return describeVal(in, t.E[0])
+			},
+			Oracle: func(env *OracleEnv) ([]string, bool) {
+				if env.Bool("nc") {
+					return []string{"yes"}, true
+				}
+				// absent attribute (omitempty) or an explicit "no"
+				return []string{"nil", "no", "", "[]"}, true
+			}}
+		res := runDTX(c, spec)
+		reportDTX(c, en, spec, res, spec.Name)
+	}
+	en.RequireRole("enumeration")
+	if prop == "C08" {
+		utcRule(c, pr, "C08")
 	}
 
 	if p.Control {
